@@ -189,6 +189,7 @@ class Module:
         self.renamed = canonicalise_private_names(self.tree, name)
         canonicalise_conditions(self.tree)
         desugar_map_filter(self.tree)
+        desugar_fstrings(self.tree)
         self.inlined = inline_expression_helpers(self.tree)
         self.propagated = propagate_simple_constants(self.tree)
         self.aliases_inlined = inline_pure_aliases(self.tree, unstable)
@@ -1015,6 +1016,47 @@ def canonicalise_private_names(tree, modname):
         elif isinstance(n, ast.FunctionDef) and n.name in ren:
             n.name = ren[n.name]
     return ren
+
+
+def desugar_fstrings(tree):
+    """f'..{a}..{b!r}..' is read as '..%s..%r..' % (a, b) -- the formatting style of the pinned tree (only plain
+    `{expr}`, `!s` and `!r` fields; a field with a format spec keeps the f-string); str.format with positional `{}`
+    fields likewise"""
+    class F(ast.NodeTransformer):
+        def visit_JoinedStr(self, n):
+            self.generic_visit(n)
+            fmt, args = '', []
+            for v in n.values:
+                if isinstance(v, ast.Constant) and isinstance(v.value, str):
+                    fmt += v.value.replace('%', '%%')
+                elif isinstance(v, ast.FormattedValue) and v.format_spec is None and v.conversion in (-1, 115, 114):
+                    fmt += '%r' if v.conversion == 114 else '%s'
+                    args.append(v.value)
+                else:
+                    return n
+            if not args:
+                return ast.copy_location(ast.Constant(fmt.replace('%%', '%')), n)
+            right = args[0] if len(args) == 1 and not isinstance(args[0], (ast.Tuple, ast.Dict)) else ast.Tuple(args, ast.Load())
+            return ast.copy_location(ast.BinOp(ast.Constant(fmt), ast.Mod(), right), n)
+
+        def visit_Call(self, n):
+            self.generic_visit(n)
+            # '..{}..{}'.format(a, b)
+            if isinstance(n.func, ast.Attribute) and n.func.attr == 'format' and isinstance(n.func.value, ast.Constant) \
+                    and isinstance(n.func.value.value, str) and not n.keywords and n.args \
+                    and not any(isinstance(a, ast.Starred) for a in n.args):
+                import re as _re
+                src = n.func.value.value
+                fields = _re.findall(r'\{[^{}]*\}', src.replace('{{', '').replace('}}', ''))
+                if fields and all(f_ == '{}' for f_ in fields) and len(fields) == len(n.args):
+                    fmt = src.replace('%', '%%').replace('{{', '\x00').replace('}}', '\x01').replace('{}', '%s') \
+                        .replace('\x00', '{').replace('\x01', '}')
+                    right = n.args[0] if len(n.args) == 1 and not isinstance(n.args[0], (ast.Tuple, ast.Dict)) \
+                        else ast.Tuple(list(n.args), ast.Load())
+                    return ast.copy_location(ast.BinOp(ast.Constant(fmt), ast.Mod(), right), n)
+            return n
+    F().visit(tree)
+    ast.fix_missing_locations(tree)
 
 
 def strip_annotations(tree):
